@@ -40,11 +40,13 @@ class Mir:
             self.text[k] = open(p).read()
         self.cache = {}
 
-    def find(self, crate, pattern):
-        key = (crate, pattern)
+    def find(self, crate, pattern, sig=None):
+        key = (crate, pattern, sig)
         if key in self.cache:
             return self.cache[key]
         ms = list(re.finditer(r'^fn (' + pattern + r')\((?:[^\n]*?)\) -> [^\n]*? \{\n.*?^\}\n', self.text[crate], re.S | re.M))
+        if sig is not None:
+            ms = [m for m in ms if re.search(sig, m.group(0).split('\n', 1)[0])]
         if len(ms) != 1:
             raise Untranslatable('function pattern %r matches %d functions in %s' % (pattern, len(ms), crate))
         f = Fn(ms[0].group(1), ms[0].group(0))
@@ -91,6 +93,16 @@ class Adaptor:
     """iterator adaptor: kind in ('map', 'flat_map'), inner iterator, closure"""
     def __init__(self, kind, inner, closure):
         self.kind, self.inner, self.closure = kind, inner, closure
+
+
+def clone_val(v):
+    """`copy` of an aggregate is a new value (Python lists would alias otherwise); references,
+    opaque records and terms are shared"""
+    if isinstance(v, list):
+        return [clone_val(x) for x in v]
+    if isinstance(v, Enum):
+        return Enum(v.variant, [clone_val(x) for x in v.fields])
+    return v
 
 
 def deref(v):
@@ -333,6 +345,8 @@ class Interp:
         m = re.fullmatch(r'const (-?[\d.]+(?:E-?\d+)?)f64', o)
         if m:
             return ('f64const', m.group(1))
+        if o == 'const ()':
+            return []
         if o == 'const true':
             return True
         if o == 'const false':
@@ -340,16 +354,25 @@ class Interp:
         m = re.fullmatch(r'const Option::<[^>]*>::None', o)
         if m:
             return Enum('None')
+        if o.startswith('const ZeroSized: {closure@'):
+            return Closure(re.fullmatch(r'const ZeroSized: \{closure@([^}]*)\}', o).group(1), [])
         if o.startswith('const '):
             raise Untranslatable('constant ' + o)
+        is_copy = False
         for k in ('no_retag ', 'copy ', 'move '):
             if o.startswith(k):
+                is_copy = is_copy or k == 'copy '
                 o = o[len(k):]
         for k in ('copy ', 'move '):
             if o.startswith(k):
+                is_copy = is_copy or k == 'copy '
                 o = o[len(k):]
+        m = re.fullmatch(r'const ZeroSized: \{closure@([^}]*)\}', o)
+        if m:
+            return Closure(m.group(1), [])
         g, _ = self.parse_place(env, o)
-        return g()
+        v = g()
+        return clone_val(v) if is_copy else v
 
     def cmp(self, op, a, b):
         a, b = deref(a), deref(b)
@@ -394,6 +417,9 @@ class Interp:
         m = re.fullmatch(r'(Option|Result)::<.*>::(None)', rv)
         if m:
             return Enum('None')
+        m = re.fullmatch(r"[\w:]+::<[^()]*>::(\w+)\((.*)\)", rv)   # enum variant with payload, e.g. GeometryCoordsIter::<'_, T>::Point(move _4)
+        if m and not rv.startswith(('copy', 'move', 'const')):
+            return Enum(m.group(1), [self.operand(env, x) for x in split_args(m.group(2))])
         m = re.fullmatch(r'[\w:]+(?:::<.*?>)?\((.*)\)', rv)   # tuple-struct ctor, e.g. AffineTransform::<T>(move _2)
         if m and not rv.startswith(('copy', 'move', 'const')):
             return [self.operand(env, x) for x in split_args(m.group(1))]
@@ -442,6 +468,37 @@ class Interp:
             if c.startswith('<f64 as NumCast>'):
                 return [(pc, Enum('Some', [('to_f64', d[0])]))]
             return [(pc, Enum('Some', [d[0]]))]
+        if re.fullmatch(r'<(\w+) as Into<\1>>::into', c):
+            return [(pc, d[0])]
+        if re.fullmatch(r'<Vec<.*> as DerefMut>::deref_mut', c):
+            return [(pc, argv[0])]
+        if re.fullmatch(r'Vec::<.*>::push', c):
+            d[0].append(d[1])
+            return [(pc, [])]
+        if re.fullmatch(r'<\w+ as Ord>::cmp', c):
+            a, b = d[0], d[1]
+            rank = {'Empty': 0, 'ZeroDimensional': 1, 'OneDimensional': 2, 'TwoDimensional': 3}
+            if isinstance(a, Enum) and isinstance(b, Enum) and a.variant in rank and b.variant in rank:
+                ra, rb = rank[a.variant], rank[b.variant]
+                return [(pc, Enum('Less' if ra < rb else ('Greater' if ra > rb else 'Equal')))]
+            raise Untranslatable('Ord::cmp on unmodelled values')
+        if re.fullmatch(r'Option::<.*>::as_(mut|ref)', c):
+            cell = argv[0]
+            opt = deref(cell)
+            if isinstance(opt, Enum) and opt.variant == 'None':
+                return [(pc, Enum('None'))]
+            if isinstance(opt, Enum) and opt.variant == 'Some':
+                return [(pc, Enum('Some', [Ref(lambda opt=opt: opt.fields[0], lambda v, opt=opt: opt.fields.__setitem__(0, v))]))]
+            raise Untranslatable('Option::as_mut of ' + repr(opt))
+        if re.fullmatch(r'Option::<.*>::map::<.*>', c):
+            opt = d[0]
+            if isinstance(opt, Enum) and opt.variant == 'None':
+                return [(pc, Enum('None'))]
+            if isinstance(opt, Enum) and opt.variant == 'Some':
+                return [(pc2, Enum('Some', [v])) for pc2, v in self.call_closure(d[1], [opt.fields[0]], pc, depth)]
+            raise Untranslatable('Option::map of ' + repr(opt))
+        if re.fullmatch(r'<geo_types::Point<\w+> as From<geo_types::Coord<\w+>>>::from', c):
+            return [(pc, [d[0]])]
         if re.fullmatch(r'Option::<.*>::unwrap', c):
             e = d[0]
             if isinstance(e, Enum) and e.variant == 'Some':
@@ -473,7 +530,7 @@ class Interp:
             if not isinstance(v, list):
                 raise Untranslatable('iter() over a non-list value')
             return [(pc, SliceIter(v))]
-        if re.fullmatch(r'<&mut \[.*\] as IntoIterator>::into_iter', c):
+        if re.fullmatch(r'<&mut \[.*\] as IntoIterator>::into_iter', c) or re.fullmatch(r'<&mut Vec<.*> as IntoIterator>::into_iter', c):
             if not isinstance(d[0], list):
                 raise Untranslatable('into_iter over a non-list value')
             return [(pc, IterMutV(d[0]))]
@@ -622,7 +679,11 @@ class Interp:
                     arms = split_args(m.group(2))
                     if isinstance(v, tuple) and v[0] == 'discr':
                         order = {'None': 0, 'Some': 1, 'Continue': 0, 'Break': 1, 'Ok': 0, 'Err': 1,
-                                 'Default': 0, 'Reversed': 1, 'Clockwise': 0, 'CounterClockwise': 1}
+                                 'Default': 0, 'Reversed': 1, 'Clockwise': 0, 'CounterClockwise': 1,
+                                 'Less': 255, 'Equal': 0, 'Greater': 1,
+                                 'Point': 0, 'Line': 1, 'LineString': 2, 'Polygon': 3, 'MultiPoint': 4, 'MultiLineString': 5,
+                                 'MultiPolygon': 6, 'GeometryCollection': 7, 'Rect': 8, 'Triangle': 9,
+                                 'Empty': 0, 'ZeroDimensional': 1, 'OneDimensional': 2, 'TwoDimensional': 3}
                         k = order[v[1]]
                         tgt = None
                         for arm in arms:
@@ -674,8 +735,7 @@ class Interp:
                         k -= 1
                     if k > 0:
                         m = (mm.group(1), body[:k], body[k + 1:-1], mm.group(3))
-                if m and ('::' in m[1] or m[1].startswith('<')) and not m[1].startswith(('Option::<', 'Result::<')) \
-                        or (m and re.fullmatch(r'Option::<.*>::unwrap', m[1])):
+                if m and ('::' in m[1] or m[1].startswith('<')):
                     dst, callee, args, tgt = m
                     argv = [self.operand(env, a) for a in split_args(args)]
                     try:
